@@ -30,6 +30,18 @@ def main():
         if pid in CHECKS and os.path.exists(os.path.join(VERIF, 'harness', 'bv', 'props', pid.lower() + '.py')):
             md = CHECKS[pid]
             tech, text, note, ref = md['technique'], md['level_text'], md['level_note'], md['design_ref']
+            # the source-translator tie (DESIGN.md section 3.4) is part of the deciding method wherever it exists
+            try:
+                import srctie_specs
+                from bv import common as _c
+                nfun = len(srctie_specs.SPECS.get(pid, []))
+                nthm = len(_c._srctie_theorems(pid)[1])
+            except Exception:
+                nfun = nthm = 0
+            if nfun and nthm and 'source-translator tie' not in tech:
+                tech += (' + source-translator tie: %d functions / methods of the anchored code are translated from the Python '
+                         'source into Lean on every run (harness/py2lean*.py, validated against CPython each run) and proved equal to / '
+                         'simulated by the model (%d theorems in lean/BoltonsVerif/%s/SrcTie.lean, DESIGN.md section 3.4)' % (nfun, nthm, pid))
             checks.append({
                 'property_id': pid,
                 'quick_cmd': './check %s quick' % pid,
